@@ -1405,3 +1405,77 @@ def _hmap_into_iter(I, f, a):
 
 MODELS["<std::collections::hash_set::Iter<'a, K> as std::iter::Iterator>::next"] = MODELS["<std::slice::Iter<'a, T> as std::iter::Iterator>::next"]
 MODELS["<std::collections::hash_map::Iter<'a, K, V> as std::iter::Iterator>::next"] = MODELS["<std::slice::Iter<'a, T> as std::iter::Iterator>::next"]
+
+
+def _stack_resolve_index(self, I, at):
+    """absolute index (from the bottom) for an int or len-relative value; materialises as needed"""
+    if isinstance(at, StackLen):
+        k = -at.off
+        if k < 0:
+            raise PathEnd("panic", "index beyond the end of the stack")
+        if not self.len_at_least(I, k):
+            raise PathEnd("panic", "index before the start of the stack")
+        return len(self.cur) - k
+    if isinstance(at, int):
+        n = self.exact_len(I)
+        if at > n:
+            I.run.panics.append(("index_oob", I.where()))
+            raise PathEnd("panic", "index out of bounds")
+        return at
+    raise I.unanalysable("stack index %r" % (at,))
+
+
+def _stack_split_off(self, I, at):
+    i = _stack_resolve_index(self, I, at)
+    items = self.cur[i:]
+    for v in reversed(items):
+        I.run.event("pop", M.rc_of(I, v))
+    del self.cur[i:]
+    return VecObj(list(items))
+
+
+def _stack_truncate(self, I, n):
+    if isinstance(n, int) and not self.len_at_least(I, n + 1):
+        return
+    _stack_split_off(self, I, n)
+
+
+AbsStack.split_off = _stack_split_off
+AbsStack.truncate = _stack_truncate
+
+
+@model("std::vec::Vec::<T, A>::split_off")
+def _vec_split_off(I, f, a):
+    v = deref(I, a[0])
+    if hasattr(v, "split_off"):
+        return v.split_off(I, a[1])
+    if isinstance(v, VecObj) and isinstance(a[1], int):
+        if a[1] > len(v.elems):
+            I.run.panics.append(("split_off_oob", I.where()))
+            raise PathEnd("panic", "split_off out of bounds")
+        tail = v.elems[a[1]:]
+        del v.elems[a[1]:]
+        return VecObj(tail, v.ety)
+    raise I.unanalysable("split_off on %r" % (v,))
+
+
+@model("std::vec::Vec::<T, A>::insert")
+def _vec_insert(I, f, a):
+    v = deref(I, a[0])
+    if isinstance(v, VecObj) and isinstance(a[1], int):
+        if a[1] > len(v.elems):
+            I.run.panics.append(("insert_oob", I.where()))
+            raise PathEnd("panic", "insert out of bounds")
+        v.elems.insert(a[1], a[2])
+        return unit()
+    raise I.unanalysable("Vec::insert on %r" % (v,))
+
+
+@model("std::vec::Vec::<T, A>::last_mut", "core::slice::<impl [T]>::last_mut")
+def _vec_last_mut(I, f, a):
+    return MODELS["core::slice::<impl [T]>::last"](I, f, a)
+
+
+@model("std::vec::Vec::<T, A>::first", "core::slice::<impl [T]>::first_mut")
+def _vec_first(I, f, a):
+    return MODELS["core::slice::<impl [T]>::first"](I, f, a)
